@@ -2,6 +2,7 @@ package main
 
 import (
 	"fmt"
+	"strings"
 	"sync"
 	"time"
 
@@ -69,6 +70,27 @@ func checkC13(r *evid.Run) {
 				apiReplayRec{Hist: a.Hist, Conc: c, Variant: a.N})
 		}
 	})
+	// deep single-name chains with the encoders: use, Add below what was there (the new nodes draw the indexes of old
+	// ones after the counter reset), use again - up to 7 calls (thorough: 8) over one name
+	deep := "MC_C13_deep.cfg"
+	if r.Tier == "thorough" {
+		deep = "MC_C13_deep8.cfg"
+	}
+	runApiModel(r, deep, timeout, func(a *apiState) {
+		if len(a.Hist) == 0 || a.Hist[len(a.Hist)-1].Op != "Op" {
+			return
+		}
+		c := concs[a.N%len(concs)]
+		apiMu.Lock()
+		d, kind := replayHistory(a, c, false)
+		apiMu.Unlock()
+		r.Count("real_calls", len(a.Hist))
+		r.Count("deep_chain_histories", 1)
+		if d != "" {
+			r.Mismatch("api-history:"+kind, fmt.Sprintf("history [%s] conc=%s: %s", histString(a.Hist), c.Name, d),
+				apiReplayRec{Hist: a.Hist, Conc: c, Variant: a.N})
+		}
+	})
 	// Mkdir of the same tree again and again (each time into a fresh directory), with Adds in between
 	runApiModel(r, "MC_C13_mkdir.cfg", timeout, func(a *apiState) {
 		if len(a.Hist) == 0 || a.Hist[len(a.Hist)-1].Op != "Op" {
@@ -86,7 +108,7 @@ func checkC13(r *evid.Run) {
 	// iterators created at one point of the history and ranged over later (possibly repeatedly), with Adds and
 	// other operations (other branch strings) in between
 	runApiModel(r, "MC_C13_iters.cfg", timeout, func(a *apiState) {
-		if len(a.Hist) == 0 || a.Hist[len(a.Hist)-1].Op != "Range" {
+		if len(a.Hist) == 0 || !strings.HasPrefix(a.Hist[len(a.Hist)-1].Op, "Range") {
 			return
 		}
 		c := concs[a.N%len(concs)]
